@@ -240,6 +240,11 @@ func (c *rc) Create(ctx context.Context, obj *unstructured.Unstructured, options
 		req.Err = apierrors.NewAlreadyExists(c.gr(), obj.GetName())
 		return nil, req.Err
 	}
+	if obj.GetName() == "" {
+		// "name or generateName is required"
+		req.Err = apierrors.NewInvalid(schema.GroupKind{Group: c.gvr.Group, Kind: obj.GetKind()}, "", nil)
+		return nil, req.Err
+	}
 	if controllerRefCount(obj) > 1 {
 		req.Err = apierrors.NewInvalid(schema.GroupKind{Group: c.gvr.Group, Kind: obj.GetKind()}, obj.GetName(), nil)
 		return nil, req.Err
